@@ -110,6 +110,8 @@ for _L in (1, 2, 3, 4):
 G3n = S.cat("g", 3, "last", values=[1, None, 3])
 _reg("e2e_cat_x_date_first_undated_L3", S.schema2("eu3", G2, date_var_first_undated(3)), "e2e", L=3, cfgs=[{}], weights=(1,),
      quick=2, thorough=3)
+_reg("e2e_cat_x_datetime_notdate", S.schema2("edt", G2, S.enum("t", "datetime", 3)), "e2e", L=3, cfgs=[{}], weights=(1,),
+     quick=2, thorough=3, notdate=True)
 _reg("e2e_cat3none_x_date_L3", S.schema2("e3n", G3n, date_var(3)), "e2e", L=3, cfgs=[{}], weights=(1,), quick=2, thorough=3)
 _reg("e2e_mr_x_date_L3", S.schema2("em3", M2, date_var(3)), "e2e", L=3, cfgs=[{}], weights=(1,), quick=1, thorough=2)
 _reg("e2e_cat_x_cat_notdate", S.schema2("en", G2, C3), "e2e", L=3, cfgs=[{}], weights=(1,), quick=2, thorough=3,
